@@ -105,12 +105,13 @@ package ply
 //@     invariant written(out) == old(written(out)) + 38 * (i / 3)
 //@     invariant fit: forall c int :: 0 <= c && c < len(model.indices) ==> 0 <= model.indices[c] && model.indices[c] < 4294967296
 //@     invariant count_bytes: buf[0] == 3 && buf[13] == 6
-//@     step first_index_slot: b32(buf, 1) == model.indices[prev(i)]
-//@     step second_index_slot: b32(buf, 5) == model.indices[prev(i) + 1]
-//@     step third_index_slot: b32(buf, 9) == model.indices[prev(i) + 2]
-//@     step texture_coordinates_of_the_three_corners: b32(buf, 14) == f32bits(f32(uvOf(model, prev(i)).X())) && b32(buf, 18) == f32bits(f32(uvOf(model, prev(i)).Y())) &&
-//@         b32(buf, 22) == f32bits(f32(uvOf(model, prev(i) + 1).X())) && b32(buf, 26) == f32bits(f32(uvOf(model, prev(i) + 1).Y())) &&
-//@         b32(buf, 30) == f32bits(f32(uvOf(model, prev(i) + 2).X())) && b32(buf, 34) == f32bits(f32(uvOf(model, prev(i) + 2).Y()))
+//@     invariant byte_order_follows_the_format: (format == BinaryBigEndian ==> typeIs(endian, binary.bigEndian)) && (format != BinaryBigEndian ==> typeIs(endian, binary.littleEndian))
+//@     step first_index_slot: b32(endian, buf, 1) == model.indices[prev(i)]
+//@     step second_index_slot: b32(endian, buf, 5) == model.indices[prev(i) + 1]
+//@     step third_index_slot: b32(endian, buf, 9) == model.indices[prev(i) + 2]
+//@     step texture_coordinates_of_the_three_corners: b32(endian, buf, 14) == f32bits(f32(uvOf(model, prev(i)).X())) && b32(endian, buf, 18) == f32bits(f32(uvOf(model, prev(i)).Y())) &&
+//@         b32(endian, buf, 22) == f32bits(f32(uvOf(model, prev(i) + 1).X())) && b32(endian, buf, 26) == f32bits(f32(uvOf(model, prev(i) + 1).Y())) &&
+//@         b32(endian, buf, 30) == f32bits(f32(uvOf(model, prev(i) + 2).X())) && b32(endian, buf, 34) == f32bits(f32(uvOf(model, prev(i) + 2).Y()))
 //@   loop 2:
 //@     invariant 0 <= i && i <= len(model.indices) && i % 3 == 0
 //@     invariant len(buf) == 13 && fresh(buf)
@@ -118,9 +119,10 @@ package ply
 //@     invariant written(out) == old(written(out)) + 13 * (i / 3)
 //@     invariant fit: forall c int :: 0 <= c && c < len(model.indices) ==> 0 <= model.indices[c] && model.indices[c] < 4294967296
 //@     invariant count_byte: buf[0] == 3
-//@     step first_index_slot: b32(buf, 1) == model.indices[prev(i)]
-//@     step second_index_slot: b32(buf, 5) == model.indices[prev(i) + 1]
-//@     step third_index_slot: b32(buf, 9) == model.indices[prev(i) + 2]
+//@     invariant byte_order_follows_the_format: (format == BinaryBigEndian ==> typeIs(endian, binary.bigEndian)) && (format != BinaryBigEndian ==> typeIs(endian, binary.littleEndian))
+//@     step first_index_slot: b32(endian, buf, 1) == model.indices[prev(i)]
+//@     step second_index_slot: b32(endian, buf, 5) == model.indices[prev(i) + 1]
+//@     step third_index_slot: b32(endian, buf, 9) == model.indices[prev(i) + 2]
 
 // ---- C04: binary vertex property records ------------------------------------------------------------
 // A built 3-vector writer emits, for vertex i, one record of exactly three scalars of its declared type.
@@ -128,8 +130,8 @@ package ply
 //@ func builtVector1PropertyWriter.Write
 //@   props C04
 //@   modifies bvpw.buf, ghost written
-//@   ensures float_slot: bvpw.format == Float ==> b32(bvpw.buf, 0) == f32bits(f32(bvpw.arr.data[i]))
-//@   ensures double_slot: bvpw.format == Double ==> b64(bvpw.buf, 0) == f64bits(bvpw.arr.data[i])
+//@   ensures float_slot: bvpw.format == Float ==> b32(bvpw.endian, bvpw.buf, 0) == f32bits(f32(bvpw.arr.data[i]))
+//@   ensures double_slot: bvpw.format == Double ==> b64(bvpw.endian, bvpw.buf, 0) == f64bits(bvpw.arr.data[i])
 //@   requires bvpw.arr != nil && 0 <= i && i < len(bvpw.arr.data)
 //@   requires binary_scalar_types: bvpw.format == UChar || bvpw.format == Int || bvpw.format == Float || bvpw.format == Double
 //@   requires buffer_is_one_record: len(bvpw.buf) == 1 * bvpw.format.Size()
@@ -139,8 +141,8 @@ package ply
 //@ func builtVector2PropertyWriter.Write
 //@   props C04
 //@   modifies bv3pw.buf, ghost written
-//@   ensures float_slots: bv3pw.format == Float ==> b32(bv3pw.buf, 0) == f32bits(f32(bv3pw.arr.data[i].X())) && b32(bv3pw.buf, 4) == f32bits(f32(bv3pw.arr.data[i].Y()))
-//@   ensures double_slots: bv3pw.format == Double ==> b64(bv3pw.buf, 0) == f64bits(bv3pw.arr.data[i].X()) && b64(bv3pw.buf, 8) == f64bits(bv3pw.arr.data[i].Y())
+//@   ensures float_slots: bv3pw.format == Float ==> b32(bv3pw.endian, bv3pw.buf, 0) == f32bits(f32(bv3pw.arr.data[i].X())) && b32(bv3pw.endian, bv3pw.buf, 4) == f32bits(f32(bv3pw.arr.data[i].Y()))
+//@   ensures double_slots: bv3pw.format == Double ==> b64(bv3pw.endian, bv3pw.buf, 0) == f64bits(bv3pw.arr.data[i].X()) && b64(bv3pw.endian, bv3pw.buf, 8) == f64bits(bv3pw.arr.data[i].Y())
 //@   requires bv3pw.arr != nil && 0 <= i && i < len(bv3pw.arr.data)
 //@   requires binary_scalar_types: bv3pw.format == UChar || bv3pw.format == Int || bv3pw.format == Float || bv3pw.format == Double
 //@   requires buffer_is_one_record: len(bv3pw.buf) == 2 * bv3pw.format.Size()
@@ -150,8 +152,8 @@ package ply
 //@ func builtVector3PropertyWriter.Write
 //@   props C04
 //@   modifies bv3pw.buf, ghost written
-//@   ensures float_slots: bv3pw.format == Float ==> b32(bv3pw.buf, 0) == f32bits(f32(bv3pw.arr.data[i].X())) && b32(bv3pw.buf, 4) == f32bits(f32(bv3pw.arr.data[i].Y())) && b32(bv3pw.buf, 8) == f32bits(f32(bv3pw.arr.data[i].Z()))
-//@   ensures double_slots: bv3pw.format == Double ==> b64(bv3pw.buf, 0) == f64bits(bv3pw.arr.data[i].X()) && b64(bv3pw.buf, 8) == f64bits(bv3pw.arr.data[i].Y()) && b64(bv3pw.buf, 16) == f64bits(bv3pw.arr.data[i].Z())
+//@   ensures float_slots: bv3pw.format == Float ==> b32(bv3pw.endian, bv3pw.buf, 0) == f32bits(f32(bv3pw.arr.data[i].X())) && b32(bv3pw.endian, bv3pw.buf, 4) == f32bits(f32(bv3pw.arr.data[i].Y())) && b32(bv3pw.endian, bv3pw.buf, 8) == f32bits(f32(bv3pw.arr.data[i].Z()))
+//@   ensures double_slots: bv3pw.format == Double ==> b64(bv3pw.endian, bv3pw.buf, 0) == f64bits(bv3pw.arr.data[i].X()) && b64(bv3pw.endian, bv3pw.buf, 8) == f64bits(bv3pw.arr.data[i].Y()) && b64(bv3pw.endian, bv3pw.buf, 16) == f64bits(bv3pw.arr.data[i].Z())
 //@   requires bv3pw.arr != nil && 0 <= i && i < len(bv3pw.arr.data)
 //@   requires binary_scalar_types: bv3pw.format == UChar || bv3pw.format == Int || bv3pw.format == Float || bv3pw.format == Double
 //@   requires buffer_is_one_record: len(bv3pw.buf) == 3 * bv3pw.format.Size()
@@ -161,8 +163,8 @@ package ply
 //@ func binaryVector4PropertyWriter.Write
 //@   props C04
 //@   modifies bv4pw.buf, ghost written
-//@   ensures float_slots: bv4pw.format == Float ==> b32(bv4pw.buf, 0) == f32bits(f32(bv4pw.arr.data[i].X())) && b32(bv4pw.buf, 4) == f32bits(f32(bv4pw.arr.data[i].Y())) && b32(bv4pw.buf, 8) == f32bits(f32(bv4pw.arr.data[i].Z())) && b32(bv4pw.buf, 12) == f32bits(f32(bv4pw.arr.data[i].W()))
-//@   ensures double_slots: bv4pw.format == Double ==> b64(bv4pw.buf, 0) == f64bits(bv4pw.arr.data[i].X()) && b64(bv4pw.buf, 8) == f64bits(bv4pw.arr.data[i].Y()) && b64(bv4pw.buf, 16) == f64bits(bv4pw.arr.data[i].Z()) && b64(bv4pw.buf, 24) == f64bits(bv4pw.arr.data[i].W())
+//@   ensures float_slots: bv4pw.format == Float ==> b32(bv4pw.endian, bv4pw.buf, 0) == f32bits(f32(bv4pw.arr.data[i].X())) && b32(bv4pw.endian, bv4pw.buf, 4) == f32bits(f32(bv4pw.arr.data[i].Y())) && b32(bv4pw.endian, bv4pw.buf, 8) == f32bits(f32(bv4pw.arr.data[i].Z())) && b32(bv4pw.endian, bv4pw.buf, 12) == f32bits(f32(bv4pw.arr.data[i].W()))
+//@   ensures double_slots: bv4pw.format == Double ==> b64(bv4pw.endian, bv4pw.buf, 0) == f64bits(bv4pw.arr.data[i].X()) && b64(bv4pw.endian, bv4pw.buf, 8) == f64bits(bv4pw.arr.data[i].Y()) && b64(bv4pw.endian, bv4pw.buf, 16) == f64bits(bv4pw.arr.data[i].Z()) && b64(bv4pw.endian, bv4pw.buf, 24) == f64bits(bv4pw.arr.data[i].W())
 //@   requires bv4pw.arr != nil && 0 <= i && i < len(bv4pw.arr.data)
 //@   requires binary_scalar_types: bv4pw.format == UChar || bv4pw.format == Int || bv4pw.format == Float || bv4pw.format == Double
 //@   requires buffer_is_one_record: len(bv4pw.buf) == 4 * bv4pw.format.Size()
@@ -385,8 +387,8 @@ package ply
 // b32(buf, o) / b64(buf, o): the unsigned integer a ByteOrder decodes from the 4 / 8 bytes at offset o (the same
 // uninterpreted decode function ByteOrder.UintN is specified with; byte order itself is abstracted).
 
-//@ spec b32(buf []byte, o int) int = u32(buf[o], buf[o+1], buf[o+2], buf[o+3])
-//@ spec b64(buf []byte, o int) int = u64(buf[o], buf[o+1], buf[o+2], buf[o+3], buf[o+4], buf[o+5], buf[o+6], buf[o+7])
+//@ spec b32(e binary.ByteOrder, buf []byte, o int) int = u32(e, buf[o], buf[o+1], buf[o+2], buf[o+3])
+//@ spec b64(e binary.ByteOrder, buf []byte, o int) int = u64(e, buf[o], buf[o+1], buf[o+2], buf[o+3], buf[o+4], buf[o+5], buf[o+6], buf[o+7])
 //@ spec binType(t ScalarPropertyType) bool = t == UChar || t == Int || t == Float || t == Double
 //@ spec inRecord(buf []byte, o int, t ScalarPropertyType) bool = 0 <= o && o + t.Size() <= len(buf)
 
@@ -396,9 +398,9 @@ package ply
 //@   requires bv3pr != nil && 0 <= i && i < len(bv3pr.arr) && binType(bv3pr.scalarType)
 //@   requires offsets_inside_record: inRecord(buf, bv3pr.xOffset, bv3pr.scalarType) && inRecord(buf, bv3pr.yOffset, bv3pr.scalarType) && inRecord(buf, bv3pr.zOffset, bv3pr.scalarType)
 //@   ensures uchar_components: bv3pr.scalarType == UChar ==> bv3pr.arr[i].X() == real(buf[bv3pr.xOffset]) / 255.0 && bv3pr.arr[i].Y() == real(buf[bv3pr.yOffset]) / 255.0 && bv3pr.arr[i].Z() == real(buf[bv3pr.zOffset]) / 255.0
-//@   ensures float_components: bv3pr.scalarType == Float ==> bv3pr.arr[i].X() == f32frombits(b32(buf, bv3pr.xOffset)) && bv3pr.arr[i].Y() == f32frombits(b32(buf, bv3pr.yOffset)) && bv3pr.arr[i].Z() == f32frombits(b32(buf, bv3pr.zOffset))
-//@   ensures double_components: bv3pr.scalarType == Double ==> bv3pr.arr[i].X() == f64frombits(b64(buf, bv3pr.xOffset)) && bv3pr.arr[i].Y() == f64frombits(b64(buf, bv3pr.yOffset)) && bv3pr.arr[i].Z() == f64frombits(b64(buf, bv3pr.zOffset))
-//@   ensures int_components: bv3pr.scalarType == Int ==> bv3pr.arr[i].X() == real(int32(b32(buf, bv3pr.xOffset))) && bv3pr.arr[i].Y() == real(int32(b32(buf, bv3pr.yOffset))) && bv3pr.arr[i].Z() == real(int32(b32(buf, bv3pr.zOffset)))
+//@   ensures float_components: bv3pr.scalarType == Float ==> bv3pr.arr[i].X() == f32frombits(b32(bv3pr.endian, buf, bv3pr.xOffset)) && bv3pr.arr[i].Y() == f32frombits(b32(bv3pr.endian, buf, bv3pr.yOffset)) && bv3pr.arr[i].Z() == f32frombits(b32(bv3pr.endian, buf, bv3pr.zOffset))
+//@   ensures double_components: bv3pr.scalarType == Double ==> bv3pr.arr[i].X() == f64frombits(b64(bv3pr.endian, buf, bv3pr.xOffset)) && bv3pr.arr[i].Y() == f64frombits(b64(bv3pr.endian, buf, bv3pr.yOffset)) && bv3pr.arr[i].Z() == f64frombits(b64(bv3pr.endian, buf, bv3pr.zOffset))
+//@   ensures int_components: bv3pr.scalarType == Int ==> bv3pr.arr[i].X() == real(int32(b32(bv3pr.endian, buf, bv3pr.xOffset))) && bv3pr.arr[i].Y() == real(int32(b32(bv3pr.endian, buf, bv3pr.yOffset))) && bv3pr.arr[i].Z() == real(int32(b32(bv3pr.endian, buf, bv3pr.zOffset)))
 //@   ensures other_vertices_untouched: forall k int :: 0 <= k && k < len(bv3pr.arr) && k != i ==> bv3pr.arr[k] == old(bv3pr.arr[k])
 
 //@ func builtVector2PropertyReader.Read
@@ -407,9 +409,9 @@ package ply
 //@   requires bv2pr != nil && 0 <= i && i < len(bv2pr.arr) && binType(bv2pr.scalarType)
 //@   requires offsets_inside_record: inRecord(buf, bv2pr.xOffset, bv2pr.scalarType) && inRecord(buf, bv2pr.yOffset, bv2pr.scalarType)
 //@   ensures uchar_components: bv2pr.scalarType == UChar ==> bv2pr.arr[i].X() == real(buf[bv2pr.xOffset]) / 255.0 && bv2pr.arr[i].Y() == real(buf[bv2pr.yOffset]) / 255.0
-//@   ensures float_components: bv2pr.scalarType == Float ==> bv2pr.arr[i].X() == f32frombits(b32(buf, bv2pr.xOffset)) && bv2pr.arr[i].Y() == f32frombits(b32(buf, bv2pr.yOffset))
-//@   ensures double_components: bv2pr.scalarType == Double ==> bv2pr.arr[i].X() == f64frombits(b64(buf, bv2pr.xOffset)) && bv2pr.arr[i].Y() == f64frombits(b64(buf, bv2pr.yOffset))
-//@   ensures int_components: bv2pr.scalarType == Int ==> bv2pr.arr[i].X() == real(int32(b32(buf, bv2pr.xOffset))) && bv2pr.arr[i].Y() == real(int32(b32(buf, bv2pr.yOffset)))
+//@   ensures float_components: bv2pr.scalarType == Float ==> bv2pr.arr[i].X() == f32frombits(b32(bv2pr.endian, buf, bv2pr.xOffset)) && bv2pr.arr[i].Y() == f32frombits(b32(bv2pr.endian, buf, bv2pr.yOffset))
+//@   ensures double_components: bv2pr.scalarType == Double ==> bv2pr.arr[i].X() == f64frombits(b64(bv2pr.endian, buf, bv2pr.xOffset)) && bv2pr.arr[i].Y() == f64frombits(b64(bv2pr.endian, buf, bv2pr.yOffset))
+//@   ensures int_components: bv2pr.scalarType == Int ==> bv2pr.arr[i].X() == real(int32(b32(bv2pr.endian, buf, bv2pr.xOffset))) && bv2pr.arr[i].Y() == real(int32(b32(bv2pr.endian, buf, bv2pr.yOffset)))
 //@   ensures other_vertices_untouched: forall k int :: 0 <= k && k < len(bv2pr.arr) && k != i ==> bv2pr.arr[k] == old(bv2pr.arr[k])
 
 //@ func builtVector4PropertyReader.Read
@@ -418,9 +420,9 @@ package ply
 //@   requires bv3pr != nil && 0 <= i && i < len(bv3pr.arr) && binType(bv3pr.scalarType)
 //@   requires offsets_inside_record: inRecord(buf, bv3pr.xOffset, bv3pr.scalarType) && inRecord(buf, bv3pr.yOffset, bv3pr.scalarType) && inRecord(buf, bv3pr.zOffset, bv3pr.scalarType) && inRecord(buf, bv3pr.wOffset, bv3pr.scalarType)
 //@   ensures uchar_components: bv3pr.scalarType == UChar ==> bv3pr.arr[i].X() == real(buf[bv3pr.xOffset]) / 255.0 && bv3pr.arr[i].Y() == real(buf[bv3pr.yOffset]) / 255.0 && bv3pr.arr[i].Z() == real(buf[bv3pr.zOffset]) / 255.0 && bv3pr.arr[i].W() == real(buf[bv3pr.wOffset]) / 255.0
-//@   ensures float_components: bv3pr.scalarType == Float ==> bv3pr.arr[i].X() == f32frombits(b32(buf, bv3pr.xOffset)) && bv3pr.arr[i].Y() == f32frombits(b32(buf, bv3pr.yOffset)) && bv3pr.arr[i].Z() == f32frombits(b32(buf, bv3pr.zOffset)) && bv3pr.arr[i].W() == f32frombits(b32(buf, bv3pr.wOffset))
-//@   ensures double_components: bv3pr.scalarType == Double ==> bv3pr.arr[i].X() == f64frombits(b64(buf, bv3pr.xOffset)) && bv3pr.arr[i].Y() == f64frombits(b64(buf, bv3pr.yOffset)) && bv3pr.arr[i].Z() == f64frombits(b64(buf, bv3pr.zOffset)) && bv3pr.arr[i].W() == f64frombits(b64(buf, bv3pr.wOffset))
-//@   ensures int_components: bv3pr.scalarType == Int ==> bv3pr.arr[i].X() == real(int32(b32(buf, bv3pr.xOffset))) && bv3pr.arr[i].Y() == real(int32(b32(buf, bv3pr.yOffset))) && bv3pr.arr[i].Z() == real(int32(b32(buf, bv3pr.zOffset))) && bv3pr.arr[i].W() == real(int32(b32(buf, bv3pr.wOffset)))
+//@   ensures float_components: bv3pr.scalarType == Float ==> bv3pr.arr[i].X() == f32frombits(b32(bv3pr.endian, buf, bv3pr.xOffset)) && bv3pr.arr[i].Y() == f32frombits(b32(bv3pr.endian, buf, bv3pr.yOffset)) && bv3pr.arr[i].Z() == f32frombits(b32(bv3pr.endian, buf, bv3pr.zOffset)) && bv3pr.arr[i].W() == f32frombits(b32(bv3pr.endian, buf, bv3pr.wOffset))
+//@   ensures double_components: bv3pr.scalarType == Double ==> bv3pr.arr[i].X() == f64frombits(b64(bv3pr.endian, buf, bv3pr.xOffset)) && bv3pr.arr[i].Y() == f64frombits(b64(bv3pr.endian, buf, bv3pr.yOffset)) && bv3pr.arr[i].Z() == f64frombits(b64(bv3pr.endian, buf, bv3pr.zOffset)) && bv3pr.arr[i].W() == f64frombits(b64(bv3pr.endian, buf, bv3pr.wOffset))
+//@   ensures int_components: bv3pr.scalarType == Int ==> bv3pr.arr[i].X() == real(int32(b32(bv3pr.endian, buf, bv3pr.xOffset))) && bv3pr.arr[i].Y() == real(int32(b32(bv3pr.endian, buf, bv3pr.yOffset))) && bv3pr.arr[i].Z() == real(int32(b32(bv3pr.endian, buf, bv3pr.zOffset))) && bv3pr.arr[i].W() == real(int32(b32(bv3pr.endian, buf, bv3pr.wOffset)))
 //@   ensures other_vertices_untouched: forall k int :: 0 <= k && k < len(bv3pr.arr) && k != i ==> bv3pr.arr[k] == old(bv3pr.arr[k])
 
 //@ func builtVector1PropertyReader.Read
@@ -429,9 +431,9 @@ package ply
 //@   requires bv1pr != nil && 0 <= i && i < len(bv1pr.arr) && binType(bv1pr.scalarType)
 //@   requires offsets_inside_record: inRecord(buf, bv1pr.offset, bv1pr.scalarType)
 //@   ensures uchar_value: bv1pr.scalarType == UChar ==> bv1pr.arr[i] == real(buf[bv1pr.offset]) / 255.0
-//@   ensures float_value: bv1pr.scalarType == Float ==> bv1pr.arr[i] == f32frombits(b32(buf, bv1pr.offset))
-//@   ensures double_value: bv1pr.scalarType == Double ==> bv1pr.arr[i] == f64frombits(b64(buf, bv1pr.offset))
-//@   ensures int_value: bv1pr.scalarType == Int ==> bv1pr.arr[i] == real(int32(b32(buf, bv1pr.offset)))
+//@   ensures float_value: bv1pr.scalarType == Float ==> bv1pr.arr[i] == f32frombits(b32(bv1pr.endian, buf, bv1pr.offset))
+//@   ensures double_value: bv1pr.scalarType == Double ==> bv1pr.arr[i] == f64frombits(b64(bv1pr.endian, buf, bv1pr.offset))
+//@   ensures int_value: bv1pr.scalarType == Int ==> bv1pr.arr[i] == real(int32(b32(bv1pr.endian, buf, bv1pr.offset)))
 //@   ensures other_vertices_untouched: forall k int :: 0 <= k && k < len(bv1pr.arr) && k != i ==> bv1pr.arr[k] == old(bv1pr.arr[k])
 
 // ---- C08 / C04: list payload decoding (face indices, texture coordinates) -------------------------------
@@ -443,13 +445,13 @@ package ply
 //@   modifies out
 //@   requires lpr.lastReadListSize >= 0 && len(lpr.buf) >= lpr.lastReadListSize * 4 && ref(out) != ref(lpr.buf)
 //@   returns err
-//@   ensures entries_in_order: err == nil ==> forall j int :: 0 <= j && j < lpr.lastReadListSize ==> out[j] == int32(b32(lpr.buf, 4 * j))
+//@   ensures entries_in_order: err == nil ==> forall j int :: 0 <= j && j < lpr.lastReadListSize ==> out[j] == int32(b32(lpr.endian, lpr.buf, 4 * j))
 //@   ensures fits_or_error: err == nil ==> len(out) >= lpr.lastReadListSize
 //@   ensures only_integer_lists: err == nil && lpr.lastReadListSize > 0 ==> lpr.property.ListType == UInt || lpr.property.ListType == Int
 //@   loop 1:
 //@     invariant 0 <= i && i <= lpr.lastReadListSize && len(out) >= lpr.lastReadListSize
 //@     invariant source_untouched: forall q int :: 0 <= q && q < len(lpr.buf) ==> lpr.buf[q] == old(lpr.buf[q])
-//@     invariant done: forall j int :: 0 <= j && j < i ==> out[j] == int32(b32(lpr.buf, 4 * j))
+//@     invariant done: forall j int :: 0 <= j && j < i ==> out[j] == int32(b32(lpr.endian, lpr.buf, 4 * j))
 //@     invariant i > 0 ==> lpr.property.ListType == UInt || lpr.property.ListType == Int
 
 //@ func listBinaryPropertyReader.Float64
@@ -457,10 +459,10 @@ package ply
 //@   modifies out
 //@   requires lpr.lastReadListSize >= 0 && (lpr.property.ListType == Float ==> len(lpr.buf) >= lpr.lastReadListSize * 4) && (lpr.property.ListType == Double ==> len(lpr.buf) >= lpr.lastReadListSize * 8)
 //@   returns err
-//@   ensures float_entries_in_order: err == nil && lpr.property.ListType == Float ==> forall j int :: 0 <= j && j < lpr.lastReadListSize ==> out[j] == f32frombits(b32(lpr.buf, 4 * j))
-//@   ensures double_entries_in_order: err == nil && lpr.property.ListType == Double ==> forall j int :: 0 <= j && j < lpr.lastReadListSize ==> out[j] == f64frombits(b64(lpr.buf, 8 * j))
+//@   ensures float_entries_in_order: err == nil && lpr.property.ListType == Float ==> forall j int :: 0 <= j && j < lpr.lastReadListSize ==> out[j] == f32frombits(b32(lpr.endian, lpr.buf, 4 * j))
+//@   ensures double_entries_in_order: err == nil && lpr.property.ListType == Double ==> forall j int :: 0 <= j && j < lpr.lastReadListSize ==> out[j] == f64frombits(b64(lpr.endian, lpr.buf, 8 * j))
 //@   ensures fits_or_error: err == nil ==> len(out) >= lpr.lastReadListSize
 //@   loop 1:
 //@     invariant 0 <= i && i <= lpr.lastReadListSize && len(out) >= lpr.lastReadListSize
-//@     invariant float_done: lpr.property.ListType == Float ==> forall j int :: 0 <= j && j < i ==> out[j] == f32frombits(b32(lpr.buf, 4 * j))
-//@     invariant double_done: lpr.property.ListType == Double ==> forall j int :: 0 <= j && j < i ==> out[j] == f64frombits(b64(lpr.buf, 8 * j))
+//@     invariant float_done: lpr.property.ListType == Float ==> forall j int :: 0 <= j && j < i ==> out[j] == f32frombits(b32(lpr.endian, lpr.buf, 4 * j))
+//@     invariant double_done: lpr.property.ListType == Double ==> forall j int :: 0 <= j && j < i ==> out[j] == f64frombits(b64(lpr.endian, lpr.buf, 8 * j))
